@@ -112,11 +112,20 @@ def _add_y(x):
 
 def make_dataset(case):
   n = case['n']
-  raw = {'id': np.arange(n, dtype=np.int64)}
+  m = n + (case.get('from_parent') or 0)
+  raw = {'id': np.arange(m, dtype=np.int64)}
+  prep = cds.NoOpBatchPreprocessor
   if case.get('extra'):
-    raw['x'] = np.stack([np.arange(n), -np.arange(n)], axis=1).astype(np.float32)
-    return fedjax.ClientDataset(raw, cds.BatchPreprocessor([_add_y]))
-  return fedjax.ClientDataset(raw)
+    raw['x'] = np.stack([np.arange(m), -np.arange(m)], axis=1).astype(np.float32)
+    prep = cds.BatchPreprocessor([_add_y])
+  ds = fedjax.ClientDataset(raw, prep)
+  if case.get('from_parent'):
+    # the dataset under test is the head ds[:n] of a longer dataset that was in
+    # use before (its size asked for, a batch drawn from it)
+    len(ds)
+    next(iter(ds.shuffle_repeat_batch(batch_size=2, num_steps=1, seed=0)), None)
+    ds = ds[:n]
+  return ds
 
 
 def make_view(ds, case, seed='case', call=None):
@@ -504,7 +513,8 @@ def hp_strategy(draw, tier, shuffle='any', seeds='any'):
     seed = None
   case = {'n': n, 'batch_size': b, 'num_epochs': epochs, 'num_steps': steps,
           'drop_remainder': drop, 'skip_shuffle': skip, 'seed': seed,
-          'call': pick(draw, CALLS), 'extra': pick(draw, [False, False, True])}
+          'call': pick(draw, CALLS), 'extra': pick(draw, [False, False, True]),
+          'from_parent': pick(draw, [0, 0, 0, 3, 7])}
   if epochs is None and steps is None:
     if pick(draw, [0, 1]):
       c = -(-pick(draw, [1, 2, 3, 4]) * n // b)
@@ -541,7 +551,8 @@ def reshuffle_strategy(draw, tier):
   case = {'n': n, 'batch_size': b, 'num_epochs': None, 'num_steps': None,
           'drop_remainder': drop, 'skip_shuffle': False, 'seed': seed,
           'seed2': seed2, 'call': pick(draw, CALLS),
-          'extra': pick(draw, [False, False, False, True])}
+          'extra': pick(draw, [False, False, False, True]),
+          'from_parent': pick(draw, [0, 0, 0, 3, 7])}
   nb = -(-total // b) + pick(draw, [0, 1, 2])
   if mode == 'epochs':
     # one more pass when the remainder is dropped, so W windows stay complete
